@@ -1395,6 +1395,11 @@ M('C04', 'python LegPipe._init_from_legs makes q_map relative only when bunching
   "            q_map[:, :2] -= (self.slices[q_map_Qi])[:, np.newaxis]\n            self.bunched = True\n        else:\n            q_map[:, 2] = np.arange(len(q_map), dtype=np.intp)\n            idx = np.arange(len(q_map) + 1, dtype=np.intp)\n",
   'PAIR-augassign-guards')
 
+M('C04', 'ChargeInfo.__setstate__ caches the unmasked mod (round-5 seed b)', CH,
+  "        self._mask = np.not_equal(mod, 1)  # where we need to take modulo in :meth:`make_valid`\n        self._mod_masked = mod[self._mask].copy()  # only where mod != 1\n        self.names = names\n\n    def save_hdf5",
+  "        self._mask = np.not_equal(mod, 1)  # where we need to take modulo in :meth:`make_valid`\n        self._mod_masked = mod.copy()  # don't share with `_mod`\n        self.names = names\n\n    def save_hdf5",
+  'STATE-derived-agree')
+
 # ---------------------------------------------------------------- C16 / C19
 M('C16', 'GMRES restart: relative residual norm used for normalisation (round-3 seed b)', KRY,
   """        self.total_error.append([npc.norm(self.rs[-1]) / self.b_norm])
